@@ -225,6 +225,15 @@ class ExplorerScriptSsbDecompiler:
         #       Might need this more flexible.
         self.smb.add_opcode(op_offset, self._line_number, self.indent * NUMBER_OF_SPACES_PER_INDENT)
 
+    def source_map_add_opcode_in_current_line(self, op_offset: int) -> None:
+        """
+        Has to be called BEFORE writing an opcode that continues the current line after one space
+        (write_stmnt with line=False, like the header of an elseif).
+        """
+        assert self.smb is not None
+        column = len(self._output) - (self._output.rfind("\n") + 1) + 1
+        self.smb.add_opcode(op_offset, self._line_number - 1, column)
+
     def source_map_add_position_mark(self, length: int, param: SsbOpParamPositionMarker) -> None:
         assert self.smb is not None
         col_number = self.indent * NUMBER_OF_SPACES_PER_INDENT
